@@ -223,7 +223,8 @@ def op_pos(rng, sim, ops, allow_contract):
             sim.off = idx
 
 
-TEXT_WORDS = ["alpha", "Alpha", "ALPHA", "beta", "b", "", " ", "  x ", "x", "\tq\t", "nameserver", "a b", "A B", "z\n"]
+TEXT_WORDS = ["alpha", "Alpha", "ALPHA", "beta", "b", "", " ", "  ", "\t", " \t ", "  x ", "x ", " x", "x", "\tq\t", "nameserver",
+              "a b", "A B", "z\n"]
 
 
 def text_bytes(rng):
@@ -266,7 +267,8 @@ def op_parse(rng, sim, ops):
     return "unknown"
 
 
-FLAGSETS = [0, 0, 48, 48, 4, 12, 4 | 48, 12 | 48, 2, 2 | 4, 2 | 12, 2 | 48, 1, 1 | 2, 16, 32, 1 | 48, 2 | 4 | 48, 63]
+FLAGSETS = [0, 0, 48, 48, 4, 12, 4 | 48, 12 | 48, 2, 2 | 4, 2 | 12, 2 | 48, 1, 1 | 2, 16, 32, 16, 32, 16 | 2, 32 | 2,
+            16 | 4, 32 | 4, 32 | 12, 1 | 48, 1 | 16, 1 | 32, 2 | 4 | 48, 63]
 
 
 def op_split(rng, sim, ops, delims=None):
@@ -299,22 +301,34 @@ def scenario_boundary_fetch(rng, sim, ops):
 
 
 def scenario_tag_reclaim(rng, sim, ops):
-    """tag, consume, append enough to force ensure_space to reclaim (or grow), rollback"""
-    if sim.const:
+    """append while tagged so that ares_buf_ensure_space has to call ares_buf_reclaim, in both
+    shapes: tag == offset (nothing consumed since the tag) and tag < offset; with a prefix consumed
+    BEFORE the tag (reclaim discards it) or without (nothing to discard: growth); the append just
+    fits after the reclaim / needs growth after it; then tag_length (every dump), tag_fetch_*,
+    rollback / clear / reclaim"""
+    if sim.const or sim.broken():
         resync(sim, ops)
-    op_append(rng, sim, ops, n=rng.choice([6, 12, 20]), kind="a")
-    pre = rng.choice([0, 1, 3])
+    op_append(rng, sim, ops, n=rng.choice([6, 12, 20, 27]), kind="a")
+    pre = rng.choice([0, 1, 3, 5])           # consumed before the tag
+    pre = min(pre, sim.rem)
     if pre:
         ops.append("c:%d" % pre); sim.consume(pre)
     ops.append("t"); sim.tag = sim.off
-    mid = rng.choice([0, 1, 2, 4])
-    ops.append("c:%d" % mid); sim.consume(mid)
+    mid = rng.choice([0, 0, 1, 2, 4])        # 0: tag == offset
+    mid = min(mid, sim.rem)
+    if mid:
+        ops.append(rng.choice(["c:%d", "f:%d"]) % mid); sim.consume(mid)
     direct = max(0, sim.alloc - sim.dlen - 1)
-    n = rng.choice([direct, direct + 1, sim.room(), sim.room() + 1])
-    op_append(rng, sim, ops, n=max(1, min(n, 200)), fail=(rng.random() < 0.2), kind="a")
-    if rng.random() < 0.5:
-        ops.append("tf:%d" % 64)
-    ops.append(rng.choice(["tr", "tr", "tc", "rc"]))
+    room = sim.room()                        # = direct + what a reclaim can discard
+    n = rng.choice([direct + 1, direct + 1, room, room, room + 1, direct])
+    op_append(rng, sim, ops, n=max(1, min(n, 200)), fail=(rng.random() < 0.15),
+              kind=rng.choice(["a", "a", "as", "av", "ab", "a16", "a32"]))
+    for _ in range(rng.choice([1, 2, 3])):
+        tl = (sim.off - sim.tag) if sim.tag is not None else 0
+        ops.append(rng.choice(["tf:64", "tf:%d" % tl, "ts:64", "td", "tk", "pb", "f:1"]))
+        if ops[-1] == "f:1":
+            sim.fetch(1)
+    ops.append(rng.choice(["tr", "tr", "tr", "tc", "rc"]))
     if ops[-1] == "tr" and sim.tag is not None:
         sim.off = sim.tag; sim.tag = None
     elif ops[-1] == "tc":
@@ -414,6 +428,8 @@ def gen_case(rng, maxops):
             rng.choice([scenario_be_boundary, scenario_growth])(rng, sim, ops)
         elif mode == "contract" and r < 0.15:
             unknown = scenario_setpos_contract(rng, sim, ops)
+        elif r < 0.02 and not sim.const:
+            scenario_tag_reclaim(rng, sim, ops)
         elif r < 0.04:
             scenario_boundary_fetch(rng, sim, ops) if not sim.const else op_fetch(rng, sim, ops)
         elif r < 0.07:
